@@ -4216,3 +4216,77 @@ pub(crate) fn write_op_to_proto(
         },
     }
 }
+
+// ---------------------------------------------------------------------------------------------
+// Verification hooks (compiled only with `--cfg d_engine_verif`; add-only, no behaviour change).
+// They expose the leader's private client-bookkeeping queues read-only and forward to private
+// functions so that an out-of-tree harness can drive a real `LeaderState` event by event.
+// ---------------------------------------------------------------------------------------------
+
+/// Read-only image of every queue that can hold a client's response sender.
+#[cfg(d_engine_verif)]
+#[derive(Debug, Clone, Default, PartialEq, Eq)]
+pub struct VerifLeaderQueues {
+    pub propose_buffer: usize,
+    pub linearizable_read_buffer: usize,
+    pub lease_read_queue: usize,
+    pub eventual_read_queue: usize,
+    /// (end_log_index, start_idx, number of senders, wait_for_apply), ascending by key
+    pub pending_client_writes: Vec<(u64, u64, usize, bool)>,
+    /// log indexes, ascending
+    pub pending_write_apply: Vec<u64>,
+    /// (read_index, number of requests), ascending by key
+    pub pending_reads: Vec<(u64, usize)>,
+    pub pending_lease_reads: usize,
+    /// (log index, true = LeaderNoop / false = NodeJoin), ascending by key
+    pub pending_commit_actions: Vec<(u64, bool)>,
+}
+
+#[cfg(d_engine_verif)]
+impl<T: TypeConfig> LeaderState<T> {
+    pub fn verif_queues(&self) -> VerifLeaderQueues {
+        let mut pending_write_apply: Vec<u64> = self.pending_write_apply.keys().copied().collect();
+        pending_write_apply.sort_unstable();
+        VerifLeaderQueues {
+            propose_buffer: self.propose_buffer.len(),
+            linearizable_read_buffer: self.linearizable_read_buffer.len(),
+            lease_read_queue: self.lease_read_queue.len(),
+            eventual_read_queue: self.eventual_read_queue.len(),
+            pending_client_writes: self
+                .pending_client_writes
+                .iter()
+                .map(|(k, m)| (*k, m.start_idx, m.senders.len(), m.wait_for_apply))
+                .collect(),
+            pending_write_apply,
+            pending_reads: self.pending_reads.iter().map(|(k, b)| (*k, b.requests.len())).collect(),
+            pending_lease_reads: self.pending_lease_reads.len(),
+            pending_commit_actions: self
+                .pending_commit_actions
+                .iter()
+                .map(|(k, e)| (*k, matches!(e.action, PostCommitAction::LeaderNoop { .. })))
+                .collect(),
+        }
+    }
+
+    pub fn verif_determine_read_policy(
+        &self,
+        req: &ClientReadRequest,
+    ) -> ServerReadConsistencyPolicy {
+        self.determine_read_policy(req)
+    }
+
+    pub async fn verif_initiate_noop_commit(
+        &mut self,
+        ctx: &RaftContext<T>,
+        internal_event_tx: &mpsc::UnboundedSender<InternalEvent>,
+    ) -> Result<()> {
+        self.initiate_noop_commit(ctx, internal_event_tx).await
+    }
+
+    /// (peer id, match index), ascending by peer id
+    pub fn verif_match_index(&self) -> Vec<(u32, u64)> {
+        let mut v: Vec<(u32, u64)> = self.match_index.iter().map(|(k, v)| (*k, *v)).collect();
+        v.sort_unstable();
+        v
+    }
+}
